@@ -8,8 +8,10 @@ import (
 	"encoding/hex"
 	"encoding/json"
 	"fmt"
+	"io"
 	"os"
 	"runtime"
+	"runtime/debug"
 	"strings"
 	"sync"
 
@@ -136,6 +138,32 @@ type c20Script struct {
 type c20Task struct {
 	f    *mp4.File
 	outs [][]byte
+	rs   *c20Dev    // the task's own device handle when f was decoded lazily
+	sch  *sim.Sched // nil in solo executions: I/O points do not yield
+	free bool       // mode B: I/O points call runtime.Gosched
+}
+
+// c20Dev is a task's private handle on a shared read-only input: every Read/Seek/Write is an I/O point at which the
+// scheduler may switch to another task (mode A) or the goroutine yields its processor (mode B).
+type c20Dev struct {
+	tk  *c20Task
+	rd  *bytes.Reader
+	buf []byte // written bytes (sink side)
+}
+
+func (d *c20Dev) point() {
+	if d.tk.sch != nil {
+		d.tk.sch.Yield()
+	} else if d.tk.free {
+		runtime.Gosched()
+	}
+}
+func (d *c20Dev) Read(p []byte) (int, error)         { d.point(); return d.rd.Read(p) }
+func (d *c20Dev) Seek(o int64, w int) (int64, error) { d.point(); return d.rd.Seek(o, w) }
+func (d *c20Dev) Write(p []byte) (int, error) {
+	d.point()
+	d.buf = append(d.buf, p...)
+	return len(p), nil
 }
 
 func hashOf(b []byte) []byte {
@@ -156,12 +184,59 @@ func c20Exec(tk *c20Task, sc *c20Script, st c20Step, shared [][]byte, annexb [][
 	in := shared[sc.input]
 	switch st.kind {
 	case "decodeRd":
-		f, err := mp4.DecodeFile(bytes.NewReader(in), mp4.WithDecodeFlags(mp4.DecFileFlags(st.arg)))
-		tk.f = f
+		var rd io.Reader = bytes.NewReader(in)
+		if st.arg&1 != 0 {
+			rd = &c20Dev{tk: tk, rd: bytes.NewReader(in)} // reads are I/O points
+		}
+		f, err := mp4.DecodeFile(rd, mp4.WithDecodeFlags(mp4.DecFileFlags(st.arg&^1)))
+		tk.f, tk.rs = f, nil
+		out = []byte(errStr(err))
+	case "decodeLazy":
+		dev := &c20Dev{tk: tk, rd: bytes.NewReader(in)}
+		f, err := mp4.DecodeFile(dev, mp4.WithDecodeMode(mp4.DecModeLazyMdat))
+		tk.f, tk.rs = f, dev
+		out = []byte(errStr(err))
+	case "copy":
+		// lazy media data: ranges of the task's own mdat box are read / copied through the task's own handle
+		if tk.f == nil || tk.rs == nil {
+			return
+		}
+		var md *mp4.MdatBox
+		if tk.f.Mdat != nil {
+			md = tk.f.Mdat
+		} else if len(tk.f.Segments) > 0 && len(tk.f.Segments[0].Fragments) > 0 {
+			md = tk.f.Segments[0].Fragments[0].Mdat
+		}
+		if md == nil || md.Size() <= md.HeaderSize() {
+			return
+		}
+		pl := int64(md.Size() - md.HeaderSize())
+		start := int64(md.PayloadAbsoluteOffset()) + int64(st.arg%7)*pl/8
+		size := 1 + (pl-int64(st.arg%7)*pl/8-1)*int64(1+st.arg%3)/3
+		if st.arg%2 == 0 {
+			sink := &c20Dev{tk: tk}
+			n, err := md.CopyData(start, size, tk.rs, sink)
+			out = append(hashOf(sink.buf), fmt.Sprintf("%d %s", n, errStr(err))...)
+		} else {
+			b, err := md.ReadData(start, size, tk.rs)
+			out = append(hashOf(b), errStr(err)...)
+		}
+	case "fault":
+		// a stream that ends inside a box header or body: the decode must fail the same way for everyone
+		var x []byte
+		switch st.arg % 4 {
+		case 0:
+			x = []byte{0, 0, 0, 1, 'm', 'd', 'a', 't', 0, 0, 0} // ends inside the 64-bit size field
+		case 1:
+			x = []byte{0, 0, 0, 24, 'f', 't'} // ends inside the header
+		default:
+			x = in[:len(in)*(1+st.arg%5)/7] // ends somewhere inside the shared input
+		}
+		_, err := mp4.DecodeFile(&c20Dev{tk: tk, rd: bytes.NewReader(x)})
 		out = []byte(errStr(err))
 	case "decodeSR":
 		f, err := mp4.DecodeFileSR(bits.NewFixedSliceReader(in))
-		tk.f = f
+		tk.f, tk.rs = f, nil
 		out = []byte(errStr(err))
 	case "info":
 		if tk.f == nil {
@@ -333,16 +408,32 @@ func c20DrawScript(t *sim.Tape, nInputs int, ins []c20Input) c20Script {
 	sc := c20Script{input: t.Draw(nInputs)}
 	in := ins[sc.input]
 	viaSR := t.Bool()
+	lazy := false
 	if viaSR {
 		sc.steps = append(sc.steps, c20Step{"decodeSR", 0})
+	} else if t.Chance(250) {
+		sc.steps = append(sc.steps, c20Step{"decodeLazy", 0})
+		lazy = true
 	} else {
-		sc.steps = append(sc.steps, c20Step{"decodeRd", []int{0, 2}[t.Draw(2)]})
+		// bit 0: reads are I/O points (scheduling points inside the call); bit 1: start-on-moof flag
+		sc.steps = append(sc.steps, c20Step{"decodeRd", []int{0, 2}[t.Draw(2)] | t.Draw(2)})
 	}
 	n := 2 + t.Draw(9)
 	mutated := false
 	for i := 0; i < n; i++ {
-		k := t.Draw(10)
+		k := t.Draw(12)
+		if lazy && k >= 2 && k <= 7 {
+			k = 10 // a lazily decoded file has no media data in memory: its operations are the range reads/copies
+		}
 		switch k {
+		case 10:
+			if lazy {
+				sc.steps = append(sc.steps, c20Step{"copy", t.Draw(42)})
+			} else {
+				sc.steps = append(sc.steps, c20Step{"info", t.Draw(3)})
+			}
+		case 11:
+			sc.steps = append(sc.steps, c20Step{"fault", t.Draw(20)})
 		case 0, 1:
 			sc.steps = append(sc.steps, c20Step{"info", t.Draw(3)})
 		case 2:
@@ -425,6 +516,10 @@ func c20Run(r *sim.Run) {
 		r.Logf("task %d on input %d (%s): %s", i+1, sc.input, ins[sc.input].name, strings.Join(ks, " "))
 	}
 	fp0 := c20Fingerprint()
+	// runs must not inherit pooled objects (sync.Pool contents) from earlier runs of this worker process: two
+	// collections drop them, so that what a task finds in a pool depends on this run's history only
+	runtime.GC()
+	runtime.GC()
 	sim.NewRaceReports() // discard anything older
 	// ---- concurrent phase
 	tasks := make([]*c20Task, nTasks)
@@ -439,6 +534,14 @@ func c20Run(r *sim.Run) {
 		}
 	}
 	free := t.Chance(150)
+	var sched *sim.Sched
+	if !free {
+		// emptying all sync.Pools before every step is slow (two GCs): done in a seeded third of the runs
+		sched = &sim.Sched{Isolate: sim.RaceEnabled && t.Chance(300), MaxYields: 4 + t.Draw(24)}
+	}
+	for _, tk := range tasks {
+		tk.sch, tk.free = sched, free
+	}
 	if free {
 		// mode B: the same scripts free-running behind a start barrier (cross-check; timing decides nothing in the verdict)
 		procs := []int{1, 4, 16}[t.Draw(3)]
@@ -461,12 +564,31 @@ func c20Run(r *sim.Run) {
 		r.Event("free-running", procs)
 		r.Probe("mode-B-free-running")
 	} else {
-		// emptying all sync.Pools before every step is slow (two GCs): done in a seeded third of the runs
-		s := sim.Sched{Isolate: sim.RaceEnabled && t.Chance(300)}
+		s := sched
 		if s.Isolate {
 			r.Probe("pools-isolated")
 		}
+		// one processor for two thirds of the serialised runs: which pooled object (sync.Pool) a task gets is then a
+		// function of the schedule alone; the other third keeps the default so that cross-processor pool paths run too
+		oldProcs := 0
+		if t.Chance(667) {
+			oldProcs = runtime.GOMAXPROCS(1)
+			r.Probe("single-processor")
+		}
+		// no collection at a moment the tape did not choose: a GC empties sync.Pools, and when it happens depends on the
+		// heap history of the worker process (Isolate collects explicitly at step boundaries)
+		oldGC := debug.SetGCPercent(-1)
 		order := s.RunTasks(steps, func(runnable []int) int { return t.Draw(len(runnable)) })
+		debug.SetGCPercent(oldGC)
+		if oldProcs > 0 {
+			runtime.GOMAXPROCS(oldProcs)
+		}
+		for _, tk := range tasks {
+			tk.sch = nil
+		}
+		if len(order) > 0 {
+			r.Probe("io-point-schedule")
+		}
 		r.Logf("schedule: %v", order)
 		for _, o := range order {
 			r.Event("run", o)
